@@ -100,6 +100,52 @@ def check_round_slots(run, fx, rs):
     run.exhaustive_tables.append("IsoTime::round arms (11 units)")
 
 
+def check_round_quantity(run, fx, rs):
+    """RoundTime steps 1-6: the quantity handed to the rounding kernel is the time below the unit, in nanoseconds"""
+    rule = "R5.round-time-quantity-weights"
+    run.rule(rule, "IsoTime::round, for each smallest unit: the quantity handed to the rounding kernel weighs every time field at "
+                   "or below the unit with its length in nanoseconds (3.6e12, 6e10, 1e9, 1e6, 1e3, 1) and ignores the fields "
+                   "above it; decided by folding the function on the six unit vectors of the time record and on midnight "
+                   "(a linear form is fixed by its values on a basis)")
+    f = rs.fn("temporal_rs::iso::IsoTime::round")
+    if f is None:
+        run.anchor_missing(rule, "IsoTime::round", "not found")
+        return
+    slots = ["hour", "minute", "second", "millisecond", "microsecond", "nanosecond"]
+    weights = [3_600_000_000_000, 60_000_000_000, 1_000_000_000, 1_000_000, 1_000, 1]
+    first = {"Day": 0, "Hour": 0, "Minute": 1, "Second": 2, "Millisecond": 3, "Microsecond": 4, "Nanosecond": 5}
+    decided = 0
+    for u, lo in first.items():
+        for j in range(-1, 6):
+            ev = H.Evaluator(fx)
+            ev.inline = lambda p: p.startswith("temporal_rs::") and not p.startswith("temporal_rs::rounding::") \
+                and not p.endswith("IsoTime::balance")
+            me = H.S("temporal_rs::iso::IsoTime", tuple((n, 1 if k == j else 0) for k, n in enumerate(slots)))
+            opts = H.S(OPT + "ResolvedRoundingOptions", (("largest_unit", unit("Auto")), ("smallest_unit", unit(u)),
+                                                           ("increment", H.V(OPT + "increment::RoundingIncrement", (1,))),
+                                                           ("rounding_mode", H.V(OPT + "RoundingMode::Trunc", ()))))
+            name = "%s/%s" % (u, slots[j] if j >= 0 else "midnight")
+            try:
+                ev.call_fn(f, [me, opts])
+            except (H.Panic, H.Budget):
+                run.ok(rule, name, "not foldable: not decided", f.loc, nontrivial=False)
+                continue
+            q = [c.parts[1][0] for c in ev.trace if str(c.parts[0]).startswith("temporal_rs::rounding::") and c.parts[1]]
+            if not q or not isinstance(q[0], int) or isinstance(q[0], bool):
+                run.ok(rule, name, "the quantity is not a folded integer: not decided", f.loc, nontrivial=False)
+                continue
+            decided += 1
+            want = 0 if (j < 0 or j < lo) else weights[j]
+            run.check(q[0] == want, rule, name, "quantity = %d" % want,
+                      "rounding to %s: a time record with %s gives the quantity %d, expected %d ns: the field is %s" %
+                      (u, ("only `%s` = 1" % slots[j]) if j >= 0 else "all fields 0", q[0], want,
+                       "ignored" if q[0] == 0 else "weighted wrongly"), f.loc)
+    if decided < 40:
+        run.anchor_missing(rule, "quantity", "only %d of 49 quantity cells could be folded (the rounding kernel call was not found "
+                                             "or its argument is not constant)" % decided, f.loc)
+    run.exhaustive_tables.append("RoundTime quantity (7 units x 7 basis records)")
+
+
 def main(tier):
     run, fx = start("C05", tier)
     rs = fx["temporal_rs"]
@@ -140,5 +186,6 @@ def main(tier):
         run.check(leaves and not bad, rule, "IsoDateTime::round", "returns IsoDateTime::new(..)",
                   "RoundISODateTime returns %s without the limit check" % bad, g.loc)
     check_round_slots(run, fx, rs)
+    check_round_quantity(run, fx, rs)
     units.report(run, fx, "C05")
     return run.finish(EXPLANATION)
